@@ -41,6 +41,7 @@ class Harness:
     def __init__(self, I, n, alphabet):
         self.n, self.alphabet = n, alphabet
         self.mode = 'bytes'
+        self.allow_cr = False
         self.impl = I.fn('read_depfile', 'task.rs')
         self.spec = I.fn('flat', 'depfile.rs')
         import re
@@ -54,7 +55,9 @@ class Harness:
             if self.alphabet:
                 I.solver.add(z3.Or([b.v == c for c in self.alphabet]))
             else:
-                I.solver.add(b.v != 0, b.v != 13)
+                I.solver.add(b.v != 0)
+                if not self.allow_cr:
+                    I.solver.add(b.v != 13)
             bs.append(b)
         bs.append(IntV(8, 0))
         return bs
